@@ -37,7 +37,7 @@ func opSevUn(r *hx.Run, b []byte) {
 		return fmt.Sprintf("ok %d", uint(s))
 	})
 	if out == "panic" {
-		r.Fail("", "Severity.UnmarshalText panics on hex:"+hx.Hex(b))
+		failW(r, "", "Severity.UnmarshalText panics on hex:"+hx.Hex(b))
 	}
 	r.Op("sev-un "+hx.Hex(b), out, true)
 	// Scan with string and []byte must agree with UnmarshalText
@@ -50,7 +50,7 @@ func opSevUn(r *hx.Run, b []byte) {
 			return fmt.Sprintf("ok %d", uint(s))
 		})
 		if o2 != out {
-			r.Fail("", fmt.Sprintf("Severity.Scan(%T) disagrees with UnmarshalText on hex:%s: %s vs %s", v, hx.Hex(b), o2, out))
+			failW(r, "", fmt.Sprintf("Severity.Scan(%T) disagrees with UnmarshalText on hex:%s: %s vs %s", v, hx.Hex(b), o2, out))
 		}
 	}
 }
@@ -64,7 +64,7 @@ func opArchUn(r *hx.Run, b []byte) {
 		return fmt.Sprintf("ok %d", uint(s))
 	})
 	if out == "panic" {
-		r.Fail("", "ArchOp.UnmarshalText panics on hex:"+hx.Hex(b))
+		failW(r, "", "ArchOp.UnmarshalText panics on hex:"+hx.Hex(b))
 	}
 	r.Op("arch-un "+hx.Hex(b), out, true)
 	for _, v := range []interface{}{string(b), append([]byte(nil), b...)} {
@@ -76,7 +76,7 @@ func opArchUn(r *hx.Run, b []byte) {
 			return fmt.Sprintf("ok %d", uint(s))
 		})
 		if o2 != out {
-			r.Fail("", fmt.Sprintf("ArchOp.Scan(%T) disagrees with UnmarshalText on hex:%s", v, hx.Hex(b)))
+			failW(r, "", fmt.Sprintf("ArchOp.Scan(%T) disagrees with UnmarshalText on hex:%s", v, hx.Hex(b)))
 		}
 	}
 }
@@ -90,7 +90,7 @@ func opVerUn(r *hx.Run, b []byte) {
 		return fmt.Sprintf("ok %s %s", hx.Hex([]byte(v.Kind)), slots(v.V))
 	})
 	if out == "panic" {
-		r.Fail("", "Version.UnmarshalText panics on hex:"+hx.Hex(b))
+		failW(r, "", "Version.UnmarshalText panics on hex:"+hx.Hex(b))
 	}
 	if i := bytes.IndexByte(b, ':'); i >= 0 && strings.HasPrefix(out, "ok ") {
 		// what is accepted is kind ":" up to ten int32 literals, and the slots are those numbers
@@ -105,7 +105,7 @@ func opVerUn(r *hx.Run, b []byte) {
 			}
 		}
 		if bad {
-			r.Fail("", fmt.Sprintf("Version.UnmarshalText accepted %q as slots %s", b, slots(v.V)))
+			failW(r, "", fmt.Sprintf("Version.UnmarshalText accepted %q as slots %s", b, slots(v.V)))
 		}
 	}
 	r.Op("ver-un "+hx.Hex(b), out, true)
@@ -118,7 +118,7 @@ func opVerUn(r *hx.Run, b []byte) {
 		return fmt.Sprintf("ok %s %s", hx.Hex([]byte(v.Kind)), slots(v.V))
 	})
 	if out2 == "panic" {
-		r.Fail("", "toolkit types.Version.UnmarshalText panics on hex:"+hx.Hex(b))
+		failW(r, "", "toolkit types.Version.UnmarshalText panics on hex:"+hx.Hex(b))
 	}
 	r.Op("ver-un "+hx.Hex(b), out2, false)
 }
@@ -132,7 +132,7 @@ func opDig(r *hx.Run, b []byte) {
 		return fmt.Sprintf("ok %s %s %s", hx.Hex([]byte(d.Algorithm())), hx.Hex(d.Checksum()), hx.Hex([]byte(d.String())))
 	})
 	if out == "panic" {
-		r.Fail("", "Digest.UnmarshalText panics on hex:"+hx.Hex(b))
+		failW(r, "", "Digest.UnmarshalText panics on hex:"+hx.Hex(b))
 	}
 	r.Op("dig "+hx.Hex(b), out, true)
 	// ParseDigest and Scan(string) are the same decoder
@@ -144,7 +144,7 @@ func opDig(r *hx.Run, b []byte) {
 		return fmt.Sprintf("ok %s %s %s", hx.Hex([]byte(d.Algorithm())), hx.Hex(d.Checksum()), hx.Hex([]byte(d.String())))
 	})
 	if o2 != out {
-		r.Fail("", "ParseDigest disagrees with UnmarshalText on hex:"+hx.Hex(b))
+		failW(r, "", "ParseDigest disagrees with UnmarshalText on hex:"+hx.Hex(b))
 	}
 	o3 := hx.Guard(func() string {
 		var d claircore.Digest
@@ -154,7 +154,7 @@ func opDig(r *hx.Run, b []byte) {
 		return "ok"
 	})
 	if o3 == "panic" {
-		r.Fail("", "Digest.Scan panics on hex:"+hx.Hex(b))
+		failW(r, "", "Digest.Scan panics on hex:"+hx.Hex(b))
 	}
 }
 
@@ -170,7 +170,7 @@ func opDigSeq(r *hx.Run, a, b []byte) {
 		eb := d.UnmarshalText(b)
 		if ea == nil && !bytes.Equal(before, cp.Checksum()) {
 			// the statement: a decoded value stays equal to itself
-			r.Fail("", "a Digest value changed when the variable it was copied from decoded another text: first=hex:"+hx.Hex(a)+" second=hex:"+hx.Hex(b))
+			failW(r, "", "a Digest value changed when the variable it was copied from decoded another text: first=hex:"+hx.Hex(a)+" second=hex:"+hx.Hex(b))
 		}
 		sa, sb := "err", "err"
 		if ea == nil {
@@ -256,7 +256,7 @@ func randDigest(rnd *hx.Rand) claircore.Digest {
 	if err != nil {
 		// the statement quantifies over every constructible digest: a checksum of the algorithm's size must construct
 		if curRun != nil {
-			curRun.Fail("", fmt.Sprintf("NewDigest(%q, %d bytes) fails: %v", algo, sz, err))
+			failW(curRun, "", fmt.Sprintf("NewDigest(%q, %d bytes) fails: %v", algo, sz, err))
 		}
 		d, _ = claircore.NewDigest(claircore.SHA256, sum[:32])
 	}
@@ -406,15 +406,16 @@ func jsonRoundTrip(r *hx.Run, what string, orig interface{}, fresh interface{}) 
 	})
 	r.Case(what, true)
 	if out != "ok" {
-		r.Fail("", "json round trip of "+what+": "+out)
+		failW(r, "", "json round trip of "+what+": "+out)
 	}
 }
 
+// trunc shortens a witness; the result is valid UTF-8 (a cut may fall inside a rune).
 func trunc(s string) string {
 	if len(s) > 400 {
-		return s[:400] + "…"
+		s = s[:400] + "…"
 	}
-	return s
+	return strings.ToValidUTF8(s, "?")
 }
 
 // Run is the harness entry point for C17.
@@ -437,17 +438,17 @@ func Run(cfg hx.Config) error {
 			out = hx.Hex(b)
 			var back claircore.Severity
 			if err := back.UnmarshalText(b); err != nil || back != s {
-				r.Fail("", fmt.Sprintf("Severity %d does not round-trip through text", n))
+				failW(r, "", fmt.Sprintf("Severity %d does not round-trip through text", n))
 			}
 			val, _ := s.Value()
 			var back2 claircore.Severity
 			if err := back2.Scan(val); err != nil || back2 != s {
-				r.Fail("", fmt.Sprintf("Severity %d does not round-trip through Value/Scan", n))
+				failW(r, "", fmt.Sprintf("Severity %d does not round-trip through Value/Scan", n))
 			}
 			jb, _ := json.Marshal(&s)
 			var back3 claircore.Severity
 			if err := json.Unmarshal(jb, &back3); err != nil || back3 != s {
-				r.Fail("", fmt.Sprintf("Severity %d does not round-trip through JSON", n))
+				failW(r, "", fmt.Sprintf("Severity %d does not round-trip through JSON", n))
 			}
 		}
 		r.Op(fmt.Sprintf("sev-m %d", n), out, true)
@@ -458,12 +459,12 @@ func Run(cfg hx.Config) error {
 			out = hx.Hex(b)
 			var back claircore.ArchOp
 			if err := back.UnmarshalText(b); err != nil || back != s {
-				r.Fail("", fmt.Sprintf("ArchOp %d does not round-trip through text", n))
+				failW(r, "", fmt.Sprintf("ArchOp %d does not round-trip through text", n))
 			}
 			val, _ := s.Value()
 			var back2 claircore.ArchOp
 			if err := back2.Scan(val); err != nil || back2 != s {
-				r.Fail("", fmt.Sprintf("ArchOp %d does not round-trip through Value/Scan", n))
+				failW(r, "", fmt.Sprintf("ArchOp %d does not round-trip through Value/Scan", n))
 			}
 		}
 		r.Op(fmt.Sprintf("arch-m %d", n), out, true)
@@ -494,7 +495,7 @@ func Run(cfg hx.Config) error {
 			func() error { var s claircore.Digest; return s.Scan(v) },
 		} {
 			if hx.Guard(func() string { f(); return "ok" }) == "panic" {
-				r.Fail("", fmt.Sprintf("Scan(%T) panics", v))
+				failW(r, "", fmt.Sprintf("Scan(%T) panics", v))
 			}
 			r.Case(fmt.Sprintf("scan-other %T", v), true)
 		}
@@ -571,12 +572,12 @@ func Run(cfg hx.Config) error {
 			switch {
 			case strings.Contains(v.Kind, ":"):
 				knownColon = true
-				r.Fail("version-kind-colon", fmt.Sprintf("kind=%q slots=%s", v.Kind, slots(v.V)))
+				failW(r, "version-kind-colon", fmt.Sprintf("kind=%q slots=%s", v.Kind, slots(v.V)))
 			case v.Kind == "" && v.V != [10]int32{}:
 				knownEmpty = true
-				r.Fail("version-empty-kind", fmt.Sprintf("kind=\"\" slots=%s", slots(v.V)))
+				failW(r, "version-empty-kind", fmt.Sprintf("kind=\"\" slots=%s", slots(v.V)))
 			default:
-				r.Fail("", fmt.Sprintf("Version text round trip kind=%q slots=%s err=%v", v.Kind, slots(v.V), err))
+				failW(r, "", fmt.Sprintf("Version text round trip kind=%q slots=%s err=%v", v.Kind, slots(v.V), err))
 			}
 		}
 		// mutated texts into the decoder
@@ -618,12 +619,12 @@ func Run(cfg hx.Config) error {
 		opDig(r, t)
 		back, err := claircore.ParseDigest(d.String())
 		if err != nil || back.String() != d.String() || !bytes.Equal(back.Checksum(), d.Checksum()) || back.Algorithm() != d.Algorithm() {
-			r.Fail("", "Digest text round trip "+d.String())
+			failW(r, "", "Digest text round trip "+d.String())
 		}
 		val, _ := d.Value()
 		var back2 claircore.Digest
 		if err := back2.Scan(val); err != nil || back2.String() != d.String() {
-			r.Fail("", "Digest Value/Scan round trip "+d.String())
+			failW(r, "", "Digest Value/Scan round trip "+d.String())
 		}
 		m := append([]byte(nil), t...)
 		switch rnd.Intn(6) {
@@ -665,7 +666,7 @@ func Run(cfg hx.Config) error {
 		b, _ := json.Marshal(z)
 		var back claircore.Digest
 		if err := json.Unmarshal(b, &back); err != nil {
-			r.Fail("digest-zero-value", "json.Marshal(Digest{}) = "+string(b)+" which json.Unmarshal rejects: "+err.Error())
+			failW(r, "digest-zero-value", "json.Marshal(Digest{}) = "+string(b)+" which json.Unmarshal rejects: "+err.Error())
 		}
 	}
 
@@ -721,10 +722,17 @@ func Run(cfg hx.Config) error {
 			func() error { return json.Unmarshal([]byte(d), &claircore.VulnerabilityReport{}) },
 		} {
 			if hx.Guard(func() string { f(); return "ok" }) == "panic" {
-				r.Fail("", "report decoder panics on "+d)
+				failW(r, "", "report decoder panics on "+d)
 			}
 			r.Case("doc "+d, true)
 		}
 	}
 	return r.Close()
+}
+
+// failW reports a failure with a witness that fits on one valid UTF-8 line.
+func failW(r *hx.Run, class, witness string) {
+	witness = strings.ToValidUTF8(witness, "?")
+	witness = strings.NewReplacer("\n", `\n`, "\r", `\r`).Replace(witness)
+	r.Fail(class, witness)
 }
